@@ -102,6 +102,8 @@ func runC13(c *core.Ctx) {
 	checkArithmetic(c, t, ids)
 	checkDelegations(c, t, ids, mathDelegations, "TAB2")
 	checkParseNull(c, t, ids)
+	c.Rule("CTOR", "operator constructors store their arguments verbatim")
+	checkConstructors(c, "CTOR", "execution")
 	checkCoalesce(c, ids)
 	checkInNotIn(c, t, ids)
 	checkListIndex(c, t, ids)
@@ -287,6 +289,17 @@ func checkDelegations(c *core.Ctx, t *fnTable, ids map[string]int64, table []del
 	}
 }
 
+// parseArgs: the exact arguments of the parse calls (decimal, 64 bit; layout first).
+var parseArgs = map[string]string{"strconv.ParseInt": "values[0].Str, 10, 64", "strconv.ParseFloat": "values[0].Str, 64", "time.Parse": "values[0].Str, values[1].Str"}
+
+func canonArgs(args []absint.Val) string {
+	parts := make([]string, len(args))
+	for i, a := range args {
+		parts[i] = a.Canon()
+	}
+	return strings.Join(parts, ", ")
+}
+
 // checkParseNull (TAB6): a failed parse yields NULL and no error; a successful one the parsed value.
 func checkParseNull(c *core.Ctx, t *fnTable, ids map[string]int64) {
 	for _, s := range []struct {
@@ -304,9 +317,14 @@ func checkParseNull(c *core.Ctx, t *fnTable, ids map[string]int64) {
 		for _, fail := range []bool{false, true} {
 			fail := fail
 			called := false
+			argsBad := ""
 			res, err := evalDescriptor(c, t, d, ids, func(st *absint.State, call *ast.CallExpr, callee string, recv absint.Val, args []absint.Val) (absint.Val, bool) {
 				if callee == s.callee {
 					called = true
+					got := canonArgs(args)
+					if want := parseArgs[s.callee]; got != want {
+						argsBad = fmt.Sprintf("%s must be called as %s(%s); it is called with (%s)", s.name, s.callee, want, got)
+					}
 					if fail {
 						return absint.Tuple{Elems: []absint.Val{absint.S("garbage"), absint.NN("parseErr")}}, true
 					}
@@ -322,7 +340,7 @@ func checkParseNull(c *core.Ctx, t *fnTable, ids map[string]int64) {
 				c.Unknown("TAB6", ckey, d.Lit.Pos(), err.Error())
 				continue
 			}
-			bad := ""
+			bad := argsBad
 			if !called {
 				bad = "does not call " + s.callee
 			}
